@@ -638,4 +638,154 @@ Proof.
       * cbn. repeat split; auto; subst st1; destruct stb; cbn in *; subst; reflexivity.
 Qed.
 
+(* ------------------------------------------------------------------ every stream type *)
+Definition ds_seq (O : oracle) : Prop := forall x y, o_ds O (x ++ y) = o_ds O x && o_ds O y.
+
+Lemma tspec_two : forall t stb zw za c x b fin,
+  fx_trunc fx = true -> fx_endmark fx = true -> stream_ok stb -> ds_seq O -> enc_seq O ->
+  (fin = true -> (t =? 0) = false) ->
+  uequiv (tspec fin (set_ended (set_buf stb zw) fin) t c (x ++ b))
+         (ubind (tspec false (set_buf stb za) t c x) (fun st1 c1 => uni_spec st1 c1 b fin)).
+Proof.
+  intros t stb zw za c x b fin Htr Hem Hok Hds Henc Hc. pose proof Hok as (He & _ & _).
+  destruct (t =? 0) eqn:E0.
+  { assert (t = 0) by lia. subst t. destruct fin; [specialize (Hc eq_refl); discriminate|]. apply ctrl_two; assumption. }
+  destruct (t =? 1) eqn:E1. { assert (t = 1) by lia. subst t. apply push_two; assumption. }
+  destruct (t =? 84) eqn:E84. { assert (t = 84) by lia. subst t. apply wt_two; assumption. }
+  destruct (t =? 3) eqn:E3. { assert (t = 3) by lia. subst t. apply qdec_two; assumption. }
+  destruct (t =? 2) eqn:E2. { assert (t = 2) by lia. subst t. apply qenc_two; assumption. }
+  apply other_two; assumption.
+Qed.
+
+Definition uspec_buf (st : hstream) (c : conn) (buf : list Z) (fin : bool) : ufull :=
+  let st' := set_ended (set_buf st buf) fin in
+  if negb (stream_loops (s_stype st) || negb (is_nil buf)) then UF [] st' c [] else
+  match typed_of st' c buf with
+  | None => UF [] st' c []
+  | Some (inr _) => UFErr H3_STREAM_CREATION_ERROR c
+  | Some (inl (t, b1, c')) => tspec fin st' t c' b1
+  end.
+
+Lemma uni_spec_buf : forall st c d fin, s_ended st = false ->
+  uni_spec st c d fin = uspec_buf st c (s_buf st ++ d) fin.
+Proof. intros st c d fin He. unfold uni_spec, uspec_buf, ustart. rewrite He. reflexivity. Qed.
+
+Lemma uspec_buf_set : forall st x c buf fin, uspec_buf (set_buf st x) c buf fin = uspec_buf st c buf fin.
+Proof.
+  intros. unfold uspec_buf. rewrite set_buf_set_buf.
+  replace (s_stype (set_buf st x)) with (s_stype st) by (destruct st; reflexivity). reflexivity.
+Qed.
+
+Lemma ubind_nil_eq : forall st c k, ubind (UF [] st c []) k = k st c.
+Proof. intros. cbn. destruct (k st c); reflexivity. Qed.
+
+(* the stream is (or is about to become) the control stream *)
+Definition is_ctrl (st : hstream) (data : list Z) : bool :=
+  match s_stype st with
+  | Some t => t =? 0
+  | None => match pull_uint_var (s_buf st ++ data) with Some (t, _) => t =? 0 | None => false end
+  end.
+
+Lemma uni_two_spec : forall st c a b fin,
+  fx_trunc fx = true -> fx_endmark fx = true -> stream_ok st -> ds_seq O -> enc_seq O ->
+  (fin = true -> is_ctrl st (a ++ b) = false) ->
+  uequiv (uni_spec st c (a ++ b) fin)
+         (ubind (uni_spec st c a false) (fun st1 c1 => uni_spec st1 c1 b fin)).
+Proof.
+  intros st c a b fin Htr Hem Hok Hds Henc Hc. pose proof Hok as (He & _ & _).
+  rewrite !uni_spec_buf by assumption. rewrite app_assoc. unfold is_ctrl in Hc. rewrite app_assoc in Hc.
+  set (x := s_buf st ++ a) in *.
+  (* when the first delivery only buffers, the second one sees the whole buffer *)
+  assert (Later : uni_spec (set_ended (set_buf st x) false) c b fin = uspec_buf st c (x ++ b) fin).
+  { replace (set_ended (set_buf st x) false) with (set_buf st x) by (destruct st; cbn in *; subst; reflexivity).
+    rewrite uni_spec_buf by (destruct st; cbn in *; assumption).
+    rewrite uspec_buf_set, s_buf_set_buf. reflexivity. }
+  unfold uspec_buf at 2. cbv zeta.
+  destruct (negb (stream_loops (s_stype st) || negb (is_nil x))) eqn:EA.
+  { rewrite ubind_nil_eq, Later. apply uequiv_refl. }
+  unfold typed_of.
+  replace (s_stype (set_ended (set_buf st x) false)) with (s_stype st) by (destruct st; reflexivity).
+  replace (s_id (set_ended (set_buf st x) false)) with (s_id st) by (destruct st; reflexivity).
+  assert (EW : negb (stream_loops (s_stype st) || negb (is_nil (x ++ b))) = false).
+  { destruct (stream_loops (s_stype st)); [reflexivity|]. cbn [orb] in *.
+    destruct x; [discriminate|reflexivity]. }
+  unfold uspec_buf. cbv zeta. rewrite EW. unfold typed_of.
+  replace (s_stype (set_ended (set_buf st (x ++ b)) fin)) with (s_stype st) by (destruct st; reflexivity).
+  replace (s_id (set_ended (set_buf st (x ++ b)) fin)) with (s_id st) by (destruct st; reflexivity).
+  replace (set_ended (set_buf st x) false) with (set_buf st x) in * by (destruct st; cbn in *; subst; reflexivity).
+  destruct (s_stype st) as [t|] eqn:Et.
+  { apply tspec_two; assumption. }
+  destruct (pull_uint_var x) as [[t r1]|] eqn:P.
+  2:{ rewrite ubind_nil_eq.
+      rewrite Later. unfold uspec_buf. cbv zeta. rewrite Et, EW. unfold typed_of.
+      replace (s_stype (set_ended (set_buf st (x ++ b)) fin)) with (@None Z) by (destruct st; cbn in *; congruence).
+      replace (s_id (set_ended (set_buf st (x ++ b)) fin)) with (s_id st) by (destruct st; reflexivity).
+      apply uequiv_refl. }
+  rewrite (pull_app _ b _ _ P) in *.
+  destruct (t =? 0) eqn:E0.
+  { destruct (is_none (c_ctrl c)); [|cbn; reflexivity].
+    apply tspec_two; try assumption. intros Hf. specialize (Hc Hf). congruence. }
+  destruct (t =? 3) eqn:E3.
+  { destruct (is_none (c_qdec c)); [apply tspec_two; try assumption; intros; assumption | cbn; reflexivity]. }
+  destruct (t =? 2) eqn:E2.
+  { destruct (is_none (c_qenc c)); [apply tspec_two; try assumption; intros; assumption | cbn; reflexivity]. }
+  apply tspec_two; try assumption. intros; assumption.
+Qed.
+
+Lemma ubind_ext : forall r k1 k2, (forall s c, k1 s c = k2 s c) -> ubind r k1 = ubind r k2.
+Proof. intros r k1 k2 H. destruct r; cbn; [rewrite H|..]; reflexivity. Qed.
+
+(* chunking independence of one unidirectional stream: the bytes a ++ b in one delivery = a, then b.
+   FIN on the second delivery is allowed on every stream that is not the control stream. *)
+Theorem uni_two : forall st c a b fin,
+  fx_trunc fx = true -> fx_endmark fx = true -> stream_ok st -> ds_seq O -> enc_seq O ->
+  (fin = true -> is_ctrl st (a ++ b) = false) ->
+  uequiv (uni_full st c (a ++ b) fin)
+         (ubind (uni_full st c a false) (fun st1 c1 => uni_full st1 c1 b fin)).
+Proof.
+  intros. rewrite !uni_full_spec.
+  rewrite (ubind_ext _ (fun st1 c1 => uni_full st1 c1 b fin) (fun st1 c1 => uni_spec st1 c1 b fin))
+    by (intros; apply uni_full_spec).
+  apply uni_two_spec; assumption.
+Qed.
+
+(* uni_full is what _receive_stream_data does for a unidirectional stream id (stream table and unblocked streams around it) *)
+Lemma recv0_uni_full : forall c0 sid data fin, is_uni sid = true ->
+  receive_stream_data0 fx O c0 sid data fin =
+  let '(s0, c) := get_or_create c0 sid in
+  match uni_full s0 c data fin with
+  | UF e st' c' unb => unblock fx O (set_streams c' (put_stream st' (c_streams c'))) unb e
+  | UFErr k c' => SErr k c'
+  | UFExn k => SExn k
+  end.
+Proof.
+  intros c0 sid data fin Hu. unfold receive_stream_data0. destruct (get_or_create c0 sid) as [s0 c]. rewrite Hu.
+  unfold uni_full, uni_step, ustart. cbv zeta.
+  destruct (uni_loop _ fx O fin _ c _ []) as [st c' unb|evs st c'|k c'|k]; cbn [upost]; try reflexivity.
+  destruct (s_stype st) as [[|[q|q|]|q]|]; cbn [opt_is1 Z.eqb Pos.eqb]; try reflexivity.
+  destruct (rq_recv fx O (c_client c') st [] fin); reflexivity.
+Qed.
+
 End Uni.
+
+(* ------------------------------------------------------------------ the control stream and the FIN: the close code depends on the chunking *)
+Definition o_quiet : oracle :=
+  mkO (fun _ _ => DFailed) (fun _ => DFailed) (fun _ _ => (false, None)) (fun _ => EUnblocked []) (fun _ => true).
+
+(* control stream 3 carrying a MAX_PUSH_ID frame before any SETTINGS, then the FIN *)
+Lemma ctrl_fin_refuted :
+  run all_fixed (conn_init false true) [(QStream 3 [0; 13; 1; 1] true, o_quiet)] = [Closed H3_CLOSED_CRITICAL_STREAM] /\
+  run all_fixed (conn_init false true) [(QStream 3 [0; 13; 1; 1] false, o_quiet); (QStream 3 [] true, o_quiet)]
+    = [Closed H3_MISSING_SETTINGS; Events []].
+Proof. split; vm_compute; reflexivity. Qed.
+
+(* the hypotheses on the QPACK oracle are satisfiable by oracles that look at every byte *)
+Example seq_oracle_example :
+  let o := mkO (fun _ _ => DFailed) (fun _ => DFailed) (fun _ _ => (false, None))
+               (fun d => EUnblocked (map (fun x => 4 * x) d)) (fun d => forallb (fun x => x <? 128) d) in
+  ds_seq o /\ enc_seq o /\ o_ds o [200] = false /\ o_enc o [1; 2] = EUnblocked [4; 8].
+Proof.
+  cbv zeta. repeat split.
+  - intros x y. cbn [o_ds]. apply forallb_app.
+  - intros x y. cbn [o_enc]. rewrite map_app. reflexivity.
+Qed.
